@@ -115,7 +115,10 @@ def check(case):
             cyc = ds.cycle()
             if env.log:
                 raise Violation('cycle-construction-evaluates', f'{desc}\nds.cycle() alone evaluated {env.log[:6]}')
-            list(itertools.islice(cyc, k))
+            cyc_it = iter(cyc)
+            list(itertools.islice(cyc_it, k))
+            if hasattr(cyc_it, 'close'):
+                cyc_it.close()  # no suspended generator is left to the garbage collector
             list(itertools.islice(ref.iter(node), k))
         elif mode == 'prefix':
             k = case['arg']
